@@ -24,6 +24,7 @@ CONSTANTS NameSeq,      \* universe of variable names, as a sequence
           MaxDepth,
           Actions,      \* subset of the action names below
           InitDeclared  \* number of names declared initially
+RequireUnprimedTarget == TRUE   \* preimage: the target does not mention the primed variable (see C13 finding)
 VARIABLES m, h, last
 vars == <<m, h, last>>
 
@@ -87,6 +88,24 @@ DoRenameSwap(k, u, n1, n2) ==   \* simultaneous exchange n1 <-> n2
                        [l \in 0..(NLv - 1) |-> IF m.order[l + 1] = n1 THEN LevelOf(m, n2)
                                                ELSE IF m.order[l + 1] = n2 THEN LevelOf(m, n1) ELSE l]))
   /\ last' = <<"rename2", k, u, n1, n2>>
+(* relational product over the pair (NameSeq[1], NameSeq[2]) = (unprimed, primed) *)
+LvMap(froms, tos) == [l \in {LevelOf(m, froms[i]) : i \in DOMAIN froms} |->
+                        LevelOf(m, tos[CHOOSE i \in DOMAIN froms : LevelOf(m, froms[i]) = l])]
+NoMap == [x \in {} |-> 0]
+DoPreimage(k, T, tgt, Q, fa) ==
+  LET froms == <<NameSeq[1]>>  tos == <<NameSeq[2]>> IN
+  /\ "preimage" \in Actions
+  /\ PreimagePre(m, Val(tgt), froms, tos)
+  /\ (RequireUnprimedTarget => TargetUnprimed(m, Val(tgt), tos))
+  /\ Put(k, ImageRec(m, Val(T), Val(tgt), NoMap, LvMap(froms, tos), {LevelOf(m, nm) : nm \in Q}, fa))
+  /\ last' = <<"preimage", k, T, tgt, froms, tos, Q, fa>>
+DoImage(k, T, src, Q, fa) ==
+  LET froms == <<NameSeq[2]>>  tos == <<NameSeq[1]>> IN
+  /\ "image" \in Actions
+  /\ ImagePre(m, Val(T), Val(src), froms, tos, Q)
+  /\ Abs(LevelOf(m, froms[1]) - LevelOf(m, tos[1])) = 1
+  /\ Put(k, ImageRec(m, Val(T), Val(src), LvMap(froms, tos), NoMap, {LevelOf(m, nm) : nm \in Q}, fa))
+  /\ last' = <<"image", k, T, src, froms, tos, Q, fa>>
 DoDrop(k) == /\ "drop" \in Actions /\ h[k] # 0
              /\ m' = [m EXCEPT !.ref = Decr(@, h[k])]
              /\ h' = [h EXCEPT ![k] = 0]
@@ -127,6 +146,8 @@ Next ==
   \/ \E k \in Slots, u \in Sym, nm \in Declared(m), g \in Sym : DoCompose(k, u, nm, g)
   \/ \E k \in Slots, u \in Sym, n1, n2 \in Declared(m), g1, g2 \in Sym : DoVCompose(k, u, n1, g1, n2, g2)
   \/ \E k \in Slots, u \in Sym, n1, n2 \in Declared(m) : DoRename(k, u, n1, n2) \/ DoRenameSwap(k, u, n1, n2)
+  \/ \E k \in Slots, T, x \in Sym, Q \in SUBSET {NameSeq[1], NameSeq[2]}, fa \in BOOLEAN :
+        DoPreimage(k, T, x, Q, fa) \/ DoImage(k, T, x, Q, fa)
   \/ \E k \in Slots : DoDrop(k)
   \/ \E k, j \in Slots : DoDup(k, j)
   \/ DoGC
@@ -168,6 +189,8 @@ StepOK ==
     [] a[1] = "vcompose" -> ComposeC(m, m', Lv(a[3]), <<a[4], a[6]>>, <<Lv(a[5]), Lv(a[7])>>, NewRef)
     [] a[1] = "rename" -> RenameC(m, m', Lv(a[3]), <<a[4]>>, <<a[5]>>, NewRef)
     [] a[1] = "rename2" -> RenameC(m, m', Lv(a[3]), <<a[4], a[5]>>, <<a[5], a[4]>>, NewRef)
+    [] a[1] = "preimage" -> PreimageC(m, m', Lv(a[3]), Lv(a[4]), a[5], a[6], a[7], a[8], NewRef)
+    [] a[1] = "image" -> ImageC(m, m', Lv(a[3]), Lv(a[4]), a[5], a[6], a[7], a[8], NewRef)
     [] a[1] \in {"drop", "dup"} -> CountsOnlyC(m, m')
     [] a[1] = "gc" -> CollectFullC(m, m', Ledger)
     [] a[1] = "dropgc" -> CollectRootedC(m, m', LedgerOf(h'), {h[a[2]]})
